@@ -17,8 +17,10 @@ package main
 import (
 	"flag"
 	"fmt"
+	"net"
 	"os"
 	"reflect"
+	"slices"
 	"strings"
 
 	"go.universe.tf/metallb/internal/allocator"
@@ -79,6 +81,7 @@ func (c *controller) SetBalancer(l log.Logger, name string, svcRo *v1.Service, _
 	syncStateRes := controllers.SyncStateSuccess
 
 	prevIPs := c.ips.IPs(name)
+	prevPorts := c.ips.Ports(name)
 	prevAllocKey := c.ips.AllocationKey(name)
 
 	if c.convergeBalancer(l, name, svc) != nil {
@@ -89,6 +92,13 @@ func (c *controller) SetBalancer(l log.Logger, name string, svcRo *v1.Service, _
 
 	if prevAllocKey != newAllocKey {
 		level.Debug(l).Log("event", "allocation key changed", "msg", "allocation changed for shared service, reprocessing")
+		syncStateRes = controllers.SyncStateReprocessAll
+	}
+
+	if c.isServiceAllocated(name) && releasedIPsOrPorts(prevIPs, prevPorts, c.ips.IPs(name), c.ips.Ports(name)) && c.ips.PoolForIP(prevIPs) != nil {
+		// The service moved to other IPs or stopped using some ports of a (possibly shared) IP:
+		// it may have left room for another one, so we reprocess.
+		level.Debug(l).Log("event", "allocation changed", "msg", "service released ips or ports, services will be reprocessed")
 		syncStateRes = controllers.SyncStateReprocessAll
 	}
 
@@ -139,6 +149,25 @@ func (c *controller) SetBalancer(l log.Logger, name string, svcRo *v1.Service, _
 
 	level.Info(l).Log("event", "serviceUpdated", "msg", "service is not updated")
 	return syncStateRes
+}
+
+// releasedIPsOrPorts tells if an allocation that used prevIPs and prevPorts stopped using
+// any of them.
+func releasedIPsOrPorts(prevIPs []net.IP, prevPorts []allocator.Port, ips []net.IP, ports []allocator.Port) bool {
+	for _, prev := range prevIPs {
+		if !slices.ContainsFunc(ips, prev.Equal) {
+			return true
+		}
+	}
+	if len(prevIPs) == 0 {
+		return false
+	}
+	for _, prev := range prevPorts {
+		if !slices.Contains(ports, prev) {
+			return true
+		}
+	}
+	return false
 }
 
 func (c *controller) SetPools(l log.Logger, pools *config.Pools) controllers.SyncState {
